@@ -316,7 +316,19 @@ def run(repo: Repo, rep: Report, tier: str) -> None:
         for n in walk_local(lp0):
             if isinstance(n, ast.Compare) and isinstance(n.ops[0], ast.In) and isinstance(n.comparators[0], (ast.Set, ast.Tuple, ast.List)):
                 skip |= {e.value for e in n.comparators[0].elts if isinstance(e, ast.Constant)}
-        rep.check(skip <= set(BOOKKEEPING), "C09-R5", "only bookkeeping keys are skipped", f"skipped: {sorted(skip)}", ce.loc(lp0))
+        # the skip decision itself: every `continue` in the loop is guarded by exactly one membership test of the key in a literal set
+        extra_skips = []
+        pm_ce = cce_pm = canon(ce).pm
+        for n in walk_local(lp0):
+            if isinstance(n, ast.Continue):
+                par = pm_ce.get(n)
+                t_ = canon(ce).text(par.test) if isinstance(par, ast.If) and n in par.body else "unconditional"
+                member = re.fullmatch(r"ELEM\(placement\.properties\.items\(\)\)\[0\] in \{.*\}", t_) is not None
+                absent = re.fullmatch(r"not hasattr\(.+, ELEM\(placement\.properties\.items\(\)\)\[0\]\)", t_) is not None
+                if not (member or absent):
+                    extra_skips.append(t_[:90])
+        rep.check(skip <= set(BOOKKEEPING) and not extra_skips, "C09-R5", "only bookkeeping keys are skipped",
+                  f"skipped: {sorted(skip)}" + (f"; additional skip condition(s) {extra_skips}: a property whose value is 0/False/empty never reaches the entity and the prototype default applies" if extra_skips else ""), ce.loc(lp0))
         sets = [c for c in calls_in(lp0, "setattr")]
         cce = canon(ce)
         IT = "ELEM(placement.properties.items())"
